@@ -19,6 +19,7 @@ RULE = (
     "each text x strict in {True, False} x format in {auto, SM, SSC}. Non-trivial when the loaded simfile has at "
     "least two properties or a chart; distinct by canonical JSON of the text."
 )
+EXHAUSTIVE_PART = "thorough: every truncation of the five corpus files at every structural boundary (#, :, ;, line break; before and after it)"
 ASSUMPTIONS = ["msdparser.parse_msd", "the syntactic gap guard is a superset of msdparser's escaping failures"]
 MONITORS = ["serialize_loaded", "reload_equal", "second_save_identical"]
 REQUIRED = ["key_only_loaded", "lower_case_key", "duplicate_key", "param_after_notes", "lenient_with_stray",
@@ -45,6 +46,20 @@ def cases(ctx):
     if ctx.shard == 0:
         for name, text in corpus:
             yield {"kind": "corpus", "name": name, "text": text}
+    if ctx.tier == "thorough":
+        # every truncation of every corpus file at a structural boundary ('#', ':', ';', line break), before and after it
+        k = 0
+        for name, text in corpus:
+            for pos, ch in enumerate(text):
+                if ch in "#:;\n":
+                    for cut in (pos, pos + 1):
+                        if ctx.mine(k):
+                            t = text[:cut]
+                            if c03._ends_with_odd_backslashes(t):
+                                t += "x"
+                            yield {"kind": "corpus", "name": name, "text": t, "truncated_at": cut}
+                        k += 1
+        ctx.exhaustive = True
     for i in range(n):
         if i % 6 == 5:
             name, text = rng.choice(corpus)
